@@ -14,7 +14,7 @@ EXPLANATION = (
 )
 ASSUMPTIONS = [
     'MultiTypeMap.resolve (mode U): every registered method is a function with its own code object (adapt_function / rename_code give each adapted method a fresh one)',
-    'MultiTypeMap.resolve (mode U): mro returns non-empty groups and puts each method in exactly one group (mro.positions / mro._pull)',
+    'MultiTypeMap.resolve (mode U): mro returns non-empty groups and puts each method in exactly one group (guarantee side discharged per call of _pull: mro._pull/the_group_starts_with_that_candidate, mro._pull/no_member_of_the_group_can_be_yielded_by_the_recursive_call; composing them over the recursion is by induction on the list length, not mechanised)',
     
     'MultiTypeMap.mro (mode U): each handler occurs at most once in a per-entry table (guarantee side discharged: register.any_number_of_entries/one_registration_files_the_handler_under_at_most_one_class_per_table, given pairwise distinct keyword names - Python syntax - and MTInv: the handler is not registered yet)',
     'MultiTypeMap.mro (mode U): signatures have vararg=False (Signature.extract rejects *args; register creates the -1 table only for vararg signatures)',
